@@ -10,7 +10,7 @@ From IsoTp Require Import Base.Prelude Model.Micro Spec.ConfigSpec Proofs.Frames
 Definition req_fresh (r : request) : Prop :=
   r_consumed r = 0 /\ r_depleted r = false /\ 0 <= r_size r.
 
-Record WF (s : layer) : Prop := {
+Record WF (c : cfg) (s : layer) : Prop := {
   wf_active   : tx_state s = TxIdle <-> active s = None;
   wf_waitfc   : tx_state s = TxWaitFC <-> timer_running (timer_rx_fc s) = true;
   wf_cf       : tx_state s = TxTransmitCF ->
@@ -22,10 +22,12 @@ Record WF (s : layer) : Prop := {
   wf_rxtimer  : timer_running (timer_rx_cf s) = true -> rx_state s = RxWaitCF;
   wf_seq      : 0 <= tx_seqnum s <= 15;
   wf_queue    : Forall req_fresh (tx_queue s);
-  wf_req      : forall r, active s = Some r -> 0 <= r_consumed r <= r_size r
+  wf_req      : forall r, active s = Some r -> 0 <= r_consumed r <= r_size r;
+  wf_tcr      : t_timeout (timer_rx_cf s) = p_tcr_ns (c_p c);
+  wf_tbs      : t_timeout (timer_rx_fc s) = p_tbs_ns (c_p c)
 }.
 
-Lemma WF_init c t0 : WF (init_layer c t0).
+Lemma WF_init c t0 : WF c (init_layer c t0).
 Proof.
   constructor; simpl; try tauto; try discriminate; try lia; try constructor;
     try (split; intros; discriminate); try (intros; discriminate); intuition discriminate.
@@ -36,30 +38,30 @@ Ltac wf_crush :=
   try tauto; try congruence; try lia; try (constructor; fail);
   try (intuition (try discriminate; try congruence; try lia); fail).
 
-Lemma WF_stop_receiving s : WF s -> WF (stop_receiving s).
+Lemma WF_stop_receiving c s : WF c s -> WF c (stop_receiving s).
 Proof. intros []. wf_crush. Qed.
 
-Lemma WF_check_timeouts s : WF s -> WF (fst (check_timeouts_rx s)).
+Lemma WF_check_timeouts c s : WF c s -> WF c (fst (check_timeouts_rx s)).
 Proof.
   intros H. unfold check_timeouts_rx. destruct (timer_timed_out _ _); simpl.
   - apply WF_stop_receiving, H.
   - exact H.
 Qed.
 
-Lemma WF_tick d s : WF s -> WF (tick d s).
+Lemma WF_tick c d s : WF c s -> WF c (tick d s).
 Proof. intros []. wf_crush. Qed.
 
-Lemma WF_recv s : WF s -> WF (fst (recv s)).
+Lemma WF_recv c s : WF c s -> WF c (fst (recv s)).
 Proof. intros H. unfold recv. destruct (rx_queue s); simpl; [exact H|]. destruct H. wf_crush. Qed.
 
-Lemma WF_lim_update p s : WF s -> WF (lim_update p s).
+Lemma WF_lim_update c p s : WF c s -> WF c (lim_update p s).
 Proof.
   intros H. unfold lim_update, lim_reset.
   destruct (negb (p_lim_enable p)); [destruct H; wf_crush|].
   destruct (lim_pop _ _ _ _ _) as [[ts bs] tot]. destruct H; wf_crush.
 Qed.
 
-Lemma WF_lim_inform p n s : WF s -> WF (lim_inform p n s).
+Lemma WF_lim_inform c p n s : WF c s -> WF c (lim_inform p n s).
 Proof.
   intros H. unfold lim_inform.
   destruct (negb (p_lim_enable p)); [exact H|].
@@ -67,10 +69,10 @@ Proof.
   destruct (SLOT_NS <? _); destruct H; wf_crush.
 Qed.
 
-Lemma WF_stop_sending b s : WF s -> WF (fst (stop_sending b s)).
+Lemma WF_stop_sending c b s : WF c s -> WF c (fst (stop_sending b s)).
 Proof. intros []. unfold stop_sending. wf_crush. Qed.
 
-Lemma WF_send c s g size t : WF s -> WF (fst (send c s g size t)).
+Lemma WF_send c s g size t : WF c s -> WF c (fst (send c s g size t)).
 Proof.
   intros H. unfold send.
   destruct (size <? 0) eqn:E0; [exact H|].
@@ -81,17 +83,17 @@ Proof.
   unfold req_fresh; cbn. repeat split; lia.
 Qed.
 
-Lemma WF_reset c s : WF s -> WF (fst (reset c s)).
+Lemma WF_reset c s : WF c s -> WF c (fst (reset c s)).
 Proof.
   intros H. unfold reset.
-  match goal with |- context [stop_sending false ?x] => pose proof (WF_stop_sending false x) as Hs end.
+  match goal with |- context [stop_sending false ?x] => pose proof (WF_stop_sending c false x) as Hs end.
   destruct (stop_sending false _) as [s1 evs] eqn:E. simpl in *.
-  assert (WF s1) as H1. { apply Hs. destruct H. wf_crush. }
+  assert (WF c s1) as H1. { apply Hs. destruct H. wf_crush. }
   apply WF_stop_receiving in H1. destruct H1. unfold lim_reset. wf_crush.
 Qed.
 
 Lemma WF_start_reception c s len data rxdl :
-  WF s -> WF (fst (fst (start_reception_after_ff c s len data rxdl))).
+  WF c s -> WF c (fst (fst (start_reception_after_ff c s len data rxdl))).
 Proof.
   intros H. unfold start_reception_after_ff.
   destruct (negb (valid_rxdl rxdl)).
@@ -99,7 +101,7 @@ Proof.
   - destruct (p_max_frame_size (c_p c) <? len); simpl; destruct H; wf_crush.
 Qed.
 
-Lemma WF_process_rx c s f : WF s -> WF (rr_s (process_rx c s f)).
+Lemma WF_process_rx c s f : WF c s -> WF c (rr_s (process_rx c s f)).
 Proof.
   intros H. unfold process_rx.
   destruct (pdu_decode _ _) as [d|]; [|apply WF_stop_receiving, H].
@@ -165,7 +167,7 @@ Qed.
 Definition idle_like (s : layer) : Prop :=
   tx_state s = TxIdle /\ tx_standby s = None /\ timer_running (timer_rx_fc s) = false.
 
-Lemma WF_idle_like s : WF s -> tx_state s = TxIdle -> idle_like s.
+Lemma WF_idle_like c s : WF c s -> tx_state s = TxIdle -> idle_like s.
 Proof.
   intros [] Hi. unfold idle_like. repeat split; try assumption.
   - destruct (tx_standby s) eqn:E; [|reflexivity]. exfalso.
@@ -180,11 +182,11 @@ Ltac wf_more :=
   try (intros ? E0; injection E0 as <-; cbn; lia).
 
 Lemma WF_start_request c s q r allowed s' evs out :
-  WF s -> tx_state s = TxIdle -> Forall req_fresh q -> req_fresh r ->
+  WF c s -> tx_state s = TxIdle -> Forall req_fresh q -> req_fresh r ->
   start_request c (s <| tx_queue := q |> <| active := Some r |>) r allowed = SRDone s' evs out ->
-  WF s'.
+  WF c s'.
 Proof.
-  intros H Hidle Hq Hr. pose proof (WF_idle_like s H Hidle) as (_ & Hsb & Htm).
+  intros H Hidle Hq Hr. pose proof (WF_idle_like c s H Hidle) as (_ & Hsb & Htm).
   destruct Hr as (Hr1 & Hr2 & Hr3).
   unfold start_request.
   set (s0 := s <| tx_queue := q |> <| active := Some r |>).
@@ -206,15 +208,15 @@ Proof.
 Qed.
 
 Lemma WF_idle_dequeue c q : forall s evs allowed s' evs' out,
-  WF s -> tx_state s = TxIdle -> Forall req_fresh q ->
-  idle_dequeue c q s evs allowed = SRDone s' evs' out -> WF s'.
+  WF c s -> tx_state s = TxIdle -> Forall req_fresh q ->
+  idle_dequeue c q s evs allowed = SRDone s' evs' out -> WF c s'.
 Proof.
   induction q as [|r rest IH]; intros s evs allowed s' evs' out H Hi Hq; simpl.
   - intros E; injection E as <- <- <-. destruct H. wf_crush.
   - inversion Hq as [|? ? Hr Hrest]; subst.
     destruct (r_is_depleted r).
     + apply IH; [|exact Hi|exact Hrest].
-      pose proof (proj1 (wf_active s H) Hi) as Ha. destruct H. wf_crush.
+      pose proof (proj1 (wf_active c s H) Hi) as Ha. destruct H. wf_crush.
     + destruct (start_request c _ r allowed) as [site|s2 evs2 out2] eqn:Es; [discriminate|].
       intros E; injection E as <- <- <-.
       eapply WF_start_request; eauto.
@@ -223,108 +225,106 @@ Qed.
 Lemma land_F_range x : 0 <= Z.land x 0xF <= 15.
 Proof. rewrite Bits.land_F. pose proof (Z.mod_pos_bound x 16). lia. Qed.
 
+Lemma WF_handle_fc_active c s fc :
+  WF c s -> tx_state s = TxWaitFC \/ tx_state s = TxTransmitCF -> WF c (fst (handle_fc_active c s fc)).
+Proof.
+  intros H Hst. unfold handle_fc_active.
+  assert (tx_standby s = None) as Hsb.
+  { destruct (tx_standby s) eqn:E; [|reflexivity]. exfalso.
+    assert (Some f <> None) as Hn by discriminate. rewrite <- E in Hn.
+    apply (wf_standby c s H) in Hn. destruct Hn, Hst; congruence. }
+  destruct (fc_status fc =? FS_WAIT).
+  - destruct (p_wftmax (c_p c) =? 0); [exact H|].
+    destruct (timer_timed_out _ _); [exact H|].
+    destruct (p_wftmax (c_p c) <=? wft_counter s).
+    + pose proof (WF_stop_sending c false s H) as Hs. destruct (stop_sending false s). exact Hs.
+    + simpl. destruct H. wf_crush; wf_more.
+  - destruct ((fc_status fc =? FS_CTS) && _); [|exact H].
+    destruct Hst as [Et|Et]; cbn; rewrite Et.
+    + destruct H. wf_crush; wf_more.
+    + pose proof (wf_cf c s H Et) as [Hrb Hst']. destruct H. wf_crush; wf_more.
+Qed.
+
 Lemma WF_handle_fc c s fc r0 s' evs :
-  WF s -> handle_fc c s fc = (r0, (s', evs)) -> WF s'.
+  WF c s -> handle_fc c s fc = (r0, (s', evs)) -> WF c s'.
 Proof.
   intros H. unfold handle_fc.
   destruct (fc_status fc =? FS_OVFLW).
-  - pose proof (WF_stop_sending false s H) as Hs.
+  - pose proof (WF_stop_sending c false s H) as Hs.
     destruct (stop_sending false s) as [s1 e1]. intros E; injection E as _ <- _. exact Hs.
   - destruct (tx_state s) eqn:Et; try (intros E; injection E as _ <- _; exact H).
-    + (* WaitFC *)
-      destruct (fc_status fc =? FS_WAIT).
-      * destruct (p_wftmax (c_p c) =? 0); [intros E; injection E as _ <- _; exact H|].
-        destruct (timer_timed_out _ _); [intros E; injection E as _ <- _; exact H|].
-        destruct (p_wftmax (c_p c) <=? wft_counter s).
-        -- pose proof (WF_stop_sending false s H) as Hs.
-           destruct (stop_sending false s) as [s1 e1]. intros E; injection E as _ <- _. exact Hs.
-        -- intros E; injection E as _ <- _.
-           assert (tx_standby s = None) as Hsb.
-           { destruct (tx_standby s) eqn:E; [|reflexivity]. exfalso.
-             assert (Some f <> None) as Hn by discriminate. rewrite <- E in Hn.
-             apply (wf_standby s H) in Hn. destruct Hn; congruence. }
-           destruct H. wf_crush; wf_more.
-      * destruct ((fc_status fc =? FS_CTS) && _); intros E; injection E as _ <- _; [|exact H].
-        rewrite Et. destruct H. wf_crush; wf_more.
-    + (* TransmitCF *)
-      destruct (fc_status fc =? FS_WAIT).
-      * destruct (p_wftmax (c_p c) =? 0); [intros E; injection E as _ <- _; exact H|].
-        destruct (timer_timed_out _ _); [intros E; injection E as _ <- _; exact H|].
-        destruct (p_wftmax (c_p c) <=? wft_counter s).
-        -- pose proof (WF_stop_sending false s H) as Hs.
-           destruct (stop_sending false s) as [s1 e1]. intros E; injection E as _ <- _. exact Hs.
-        -- intros E; injection E as _ <- _.
-           destruct H. wf_crush; wf_more.
-      * destruct ((fc_status fc =? FS_CTS) && _); intros E; injection E as _ <- _; [|exact H].
-        rewrite Et. pose proof (wf_cf s H Et) as [Hrb Hst]. destruct H. wf_crush; wf_more.
+    + pose proof (WF_handle_fc_active c s fc H (or_introl Et)) as Hs.
+      destruct (handle_fc_active c s fc). intros E; injection E as _ <- _. exact Hs.
+    + pose proof (WF_handle_fc_active c s fc H (or_intror Et)) as Hs.
+      destruct (handle_fc_active c s fc). intros E; injection E as _ <- _. exact Hs.
 Qed.
 
-Lemma WF_no_standby s : WF s -> tx_state s <> TxSFStandby -> tx_state s <> TxFFStandby -> tx_standby s = None.
+Lemma WF_no_standby c s : WF c s -> tx_state s <> TxSFStandby -> tx_state s <> TxFFStandby -> tx_standby s = None.
 Proof.
   intros H H1 H2. destruct (tx_standby s) eqn:E; [|reflexivity]. exfalso.
   assert (Some f <> None) as Hn by discriminate. rewrite <- E in Hn.
-  apply (wf_standby s H) in Hn. destruct Hn; congruence.
+  apply (wf_standby c s H) in Hn. destruct Hn; congruence.
 Qed.
 
-Lemma WF_finish p s out : WF s ->
-  WF (match out with Some m => lim_inform p (zlen (f_data m)) s | None => s end).
+Lemma WF_finish c p s out : WF c s ->
+  WF c (match out with Some m => lim_inform p (zlen (f_data m)) s | None => s end).
 Proof. intros H. destruct out; [apply WF_lim_inform|]; exact H. Qed.
 
-Lemma WF_tx_finish p s evs out imm : WF s -> WF (tr_s (tx_finish p s evs out imm)).
+Lemma WF_tx_finish c p s evs out imm : WF c s -> WF c (tr_s (tx_finish p s evs out imm)).
 Proof. intros H. unfold tx_finish. destruct out; simpl; [apply WF_lim_inform|]; exact H. Qed.
 
 Lemma WF_tx_after_fc c s :
-  WF s ->
+  WF c s ->
   match tx_after_fc c s with
-  | inl r => WF (tr_s r)
-  | inr (s3, _) => WF s3 /\ (tx_state s3 <> TxIdle -> exists r, active s3 = Some r)
+  | inl r => WF c (tr_s r)
+  | inr (s3, _) => WF c s3 /\ (tx_state s3 <> TxIdle -> exists r, active s3 = Some r)
   end.
 Proof.
   intros H. unfold tx_after_fc.
-  assert (H1 : WF (s <| last_fc := None |>)) by (destruct H; wf_crush).
+  assert (H1 : WF c (s <| last_fc := None |>)) by (destruct H; wf_crush).
   set (s1 := s <| last_fc := None |>) in *.
   assert (Hfc : forall r0 s' evs,
-    match last_fc s with None => (Some (s1, []), (s1, [])) | Some f => handle_fc c s1 f end = (r0, (s', evs)) -> WF s').
+    match last_fc s with None => (false, (s1, [])) | Some f => handle_fc c s1 f end = (r0, (s', evs)) -> WF c s').
   { intros r0 s' evs. destruct (last_fc s) as [f|].
     - apply WF_handle_fc. exact H1.
     - intros E; injection E as _ <- _. exact H1. }
   destruct (match last_fc s with None => _ | Some f => _ end) as [r0 [s' evs1]] eqn:E.
   specialize (Hfc _ _ _ eq_refl).
-  destruct r0 as [x|]; [|exact Hfc].
-  assert (Hto : WF (fst (if timer_timed_out (now s') (timer_rx_fc s')
+  destruct r0; [exact Hfc|].
+  assert (Hto : WF c (fst (if timer_timed_out (now s') (timer_rx_fc s')
                          then let '(s'0, e) := stop_sending false s' in (s'0, EErr FlowControlTimeout :: e)
                          else (s', [])))).
   { destruct (timer_timed_out _ _); [|exact Hfc].
-    pose proof (WF_stop_sending false s' Hfc) as Hss. destruct (stop_sending false s'); exact Hss. }
+    pose proof (WF_stop_sending c false s' Hfc) as Hss. destruct (stop_sending false s'); exact Hss. }
   destruct (if timer_timed_out (now s') (timer_rx_fc s') then _ else _) as [s2 evs2]. simpl in Hto.
   assert (Hact : tx_state s2 <> TxIdle -> exists r, active s2 = Some r).
   { intros Hn. destruct (active s2) as [r|] eqn:Ea; [eauto|].
-    exfalso. apply Hn. apply (wf_active s2 Hto). exact Ea. }
+    exfalso. apply Hn. apply (wf_active c s2 Hto). exact Ea. }
   destruct (tx_state s2) eqn:Et.
   - split; [exact Hto|]. intros; congruence.
   - destruct Hact as [r Hr]; [discriminate|]. rewrite Hr.
     destruct (r_is_depleted r && _).
-    + pose proof (WF_stop_sending true s2 Hto) as Hss. destruct (stop_sending true s2) as [s3 e3] eqn:Es.
+    + pose proof (WF_stop_sending c true s2 Hto) as Hss. destruct (stop_sending true s2) as [s3 e3] eqn:Es.
       split; [exact Hss|]. unfold stop_sending in Es. injection Es as <- _. cbn. intros; congruence.
     + split; [exact Hto|]. intros _; eauto.
   - destruct Hact as [r Hr]; [discriminate|]. rewrite Hr.
     destruct (r_is_depleted r && _).
-    + pose proof (WF_stop_sending true s2 Hto) as Hss. destruct (stop_sending true s2) as [s3 e3] eqn:Es.
+    + pose proof (WF_stop_sending c true s2 Hto) as Hss. destruct (stop_sending true s2) as [s3 e3] eqn:Es.
       split; [exact Hss|]. unfold stop_sending in Es. injection Es as <- _. cbn. intros; congruence.
     + split; [exact Hto|]. intros _; eauto.
   - destruct Hact as [r Hr]; [discriminate|]. rewrite Hr.
     destruct (r_is_depleted r && _).
-    + pose proof (WF_stop_sending true s2 Hto) as Hss. destruct (stop_sending true s2) as [s3 e3] eqn:Es.
+    + pose proof (WF_stop_sending c true s2 Hto) as Hss. destruct (stop_sending true s2) as [s3 e3] eqn:Es.
       split; [exact Hss|]. unfold stop_sending in Es. injection Es as <- _. cbn. intros; congruence.
     + split; [exact Hto|]. intros _; eauto.
   - destruct Hact as [r Hr]; [discriminate|]. rewrite Hr.
     destruct (r_is_depleted r && _).
-    + pose proof (WF_stop_sending true s2 Hto) as Hss. destruct (stop_sending true s2) as [s3 e3] eqn:Es.
+    + pose proof (WF_stop_sending c true s2 Hto) as Hss. destruct (stop_sending true s2) as [s3 e3] eqn:Es.
       split; [exact Hss|]. unfold stop_sending in Es. injection Es as <- _. cbn. intros; congruence.
     + split; [exact Hto|]. intros _; eauto.
 Qed.
 
-Lemma WF_tx_cf c allowed s evs : WF s -> tx_state s = TxTransmitCF -> WF (tr_s (tx_cf c allowed s evs)).
+Lemma WF_tx_cf c allowed s evs : WF c s -> tx_state s = TxTransmitCF -> WF c (tr_s (tx_cf c allowed s evs)).
 Proof.
   intros H Et. unfold tx_cf.
   destruct (remote_bs s) as [rbs|]; [|exact H].
@@ -335,48 +335,48 @@ Proof.
   destruct (consume_facts _ _ _ _ _ Ec) as (_ & Hs & _ & Hc & Hd).
   destruct res as [payload|]; [|exact H].
   destruct (Hd payload eq_refl) as (Hd1 & Hd2 & _).
-  pose proof (wf_req s H r Ea) as Hr0.
-  assert (H4 : WF (s <| active := Some r' |>)).
+  pose proof (wf_req c s H r Ea) as Hr0.
+  assert (H4 : WF c (s <| active := Some r' |>)).
   { destruct H. wf_crush; wf_more. }
   set (s4 := s <| active := Some r' |>) in *.
   destruct (0 <? zlen payload).
   - destruct (make_tx_msg _ _ _) as [m|]; [|exact H4].
     pose proof (land_F_range (tx_seqnum s4 + 1)) as Hsq.
-    assert (H5 : WF (s4 <| tx_seqnum := Z.land (tx_seqnum s4 + 1) 0xF |>
+    assert (H5 : WF c (s4 <| tx_seqnum := Z.land (tx_seqnum s4 + 1) 0xF |>
                         <| timer_tx_stmin ::= timer_start (now s4) |>
                         <| tx_block_counter := tx_block_counter s4 + 1 |>)).
     { assert (tx_state s4 = TxTransmitCF) as Et4 by exact Et.
-      pose proof (wf_cf s4 H4 Et4) as [Hrb _]. destruct H4. wf_crush; wf_more. }
+      pose proof (wf_cf c s4 H4 Et4) as [Hrb _]. destruct H4. wf_crush; wf_more. }
     set (s5 := s4 <| tx_seqnum := _ |> <| timer_tx_stmin ::= _ |> <| tx_block_counter := _ |>) in *.
     destruct (r_is_depleted r').
     + destruct (0 <? r_remaining r').
-      * pose proof (WF_stop_sending false s5 H5) as Hss. destruct (stop_sending false s5). apply WF_tx_finish. exact Hss.
-      * pose proof (WF_stop_sending true s5 H5) as Hss. destruct (stop_sending true s5). apply WF_tx_finish. exact Hss.
+      * pose proof (WF_stop_sending c false s5 H5) as Hss. destruct (stop_sending false s5). apply WF_tx_finish. exact Hss.
+      * pose proof (WF_stop_sending c true s5 H5) as Hss. destruct (stop_sending true s5). apply WF_tx_finish. exact Hss.
     + destruct (negb (rbs =? 0) && _); apply WF_tx_finish; [|exact H5].
       assert (tx_standby s5 = None) as Hsb.
-      { apply WF_no_standby; [exact H5| |]; subst s5 s4; cbn; rewrite Et; discriminate. }
+      { apply (WF_no_standby c); [exact H5| |]; subst s5 s4; cbn; rewrite Et; discriminate. }
       destruct H5. wf_crush; wf_more.
   - destruct (r_is_depleted r').
     + destruct (0 <? r_remaining r').
-      * pose proof (WF_stop_sending false s4 H4) as Hss. destruct (stop_sending false s4). apply WF_tx_finish. exact Hss.
-      * pose proof (WF_stop_sending true s4 H4) as Hss. destruct (stop_sending true s4). apply WF_tx_finish. exact Hss.
+      * pose proof (WF_stop_sending c false s4 H4) as Hss. destruct (stop_sending false s4). apply WF_tx_finish. exact Hss.
+      * pose proof (WF_stop_sending c true s4 H4) as Hss. destruct (stop_sending true s4). apply WF_tx_finish. exact Hss.
     + destruct (negb (rbs =? 0) && _); apply WF_tx_finish; [|exact H4].
       assert (tx_standby s4 = None) as Hsb.
-      { apply WF_no_standby; [exact H4| |]; subst s4; cbn; rewrite Et; discriminate. }
+      { apply (WF_no_standby c); [exact H4| |]; subst s4; cbn; rewrite Et; discriminate. }
       destruct H4. wf_crush; wf_more.
 Qed.
 
-Lemma WF_tx_fsm c allowed s evs : WF s -> WF (tr_s (tx_fsm c allowed s evs)).
+Lemma WF_tx_fsm c allowed s evs : WF c s -> WF c (tr_s (tx_fsm c allowed s evs)).
 Proof.
   intros H. unfold tx_fsm.
   destruct (tx_state s) eqn:Et.
   - destruct (idle_dequeue c (tx_queue s) s [] allowed) as [site|s4 evs4 out] eqn:Ei; [exact H|].
-    apply WF_tx_finish. exact (WF_idle_dequeue c (tx_queue s) s [] allowed s4 evs4 out H Et (wf_queue s H) Ei).
+    apply WF_tx_finish. exact (WF_idle_dequeue c (tx_queue s) s [] allowed s4 evs4 out H Et (wf_queue c s H) Ei).
   - apply WF_tx_finish, H.
   - apply WF_tx_cf; assumption.
   - destruct (tx_standby s) as [m|] eqn:Esb; [|apply WF_tx_finish, H].
     destruct (_ <=? allowed); [|apply WF_tx_finish, H].
-    assert (H4 : forall b, WF (fst (stop_sending b (s <| tx_standby := None |>)))).
+    assert (H4 : forall b, WF c (fst (stop_sending b (s <| tx_standby := None |>)))).
     { intros b. destruct H. unfold stop_sending. wf_crush; wf_more. }
     specialize (H4 true). destruct (stop_sending true _). apply WF_tx_finish. exact H4.
   - destruct (tx_standby s) as [m|] eqn:Esb; [|apply WF_tx_finish, H].
@@ -384,11 +384,11 @@ Proof.
     apply WF_tx_finish. destruct H. wf_crush; wf_more.
 Qed.
 
-Lemma WF_tx_pending c s : WF s -> pending_fc s = true ->
-  WF (if opt_eqb (pending_fc_status (s <| pending_fc := false |>)) (Some FS_CTS)
+Lemma WF_tx_pending c s : WF c s -> pending_fc s = true ->
+  WF c (if opt_eqb (pending_fc_status (s <| pending_fc := false |>)) (Some FS_CTS)
       then start_rx_cf_timer c (s <| pending_fc := false |>) else s <| pending_fc := false |>).
 Proof.
-  intros H0 Hp. pose proof (wf_pend_cts s H0 Hp) as Hc. pose proof (wf_pending s H0 Hp) as Hq.
+  intros H0 Hp. pose proof (wf_pend_cts c s H0 Hp) as Hc. pose proof (wf_pending c s H0 Hp) as Hq.
   destruct (opt_eqb _ _) eqn:Eo; cbn in Eo.
   - assert (pending_fc_status s = Some FS_CTS) as Hcts.
     { destruct (pending_fc_status s) as [x|]; [|discriminate]. apply Z.eqb_eq in Eo. congruence. }
@@ -396,10 +396,10 @@ Proof.
   - destruct H0. wf_crush; wf_more.
 Qed.
 
-Theorem WF_process_tx c s : WF s -> WF (tr_s (process_tx c s)).
+Theorem WF_process_tx c s : WF c s -> WF c (tr_s (process_tx c s)).
 Proof.
   intros H0. unfold process_tx.
-  assert (Hmain : forall s2 a, WF s2 -> WF (tr_s (process_tx_main c a s2))).
+  assert (Hmain : forall s2 a, WF c s2 -> WF c (tr_s (process_tx_main c a s2))).
   { intros s2 a H2. unfold process_tx_main.
     pose proof (WF_tx_after_fc c s2 H2) as Hf.
     destruct (tx_after_fc c s2) as [r|[s3 evs]]; [exact Hf|].
@@ -408,8 +408,8 @@ Proof.
   assert (Hpend : forall s2,
     s2 = (if opt_eqb (pending_fc_status (s <| pending_fc := false |>)) (Some FS_CTS)
           then start_rx_cf_timer c (s <| pending_fc := false |>) else s <| pending_fc := false |>) ->
-    pending_fc s = true -> WF s2).
-  { intros s2 -> Hp. pose proof (wf_pend_cts s H0 Hp) as Hc. pose proof (wf_pending s H0 Hp) as Hq.
+    pending_fc s = true -> WF c s2).
+  { intros s2 -> Hp. pose proof (wf_pend_cts c s H0 Hp) as Hc. pose proof (wf_pending c s H0 Hp) as Hq.
     destruct (opt_eqb _ _) eqn:Eo; cbn in Eo.
     - assert (pending_fc_status s = Some FS_CTS) as Hcts.
       { destruct (pending_fc_status s) as [x|]; [|discriminate]. apply Z.eqb_eq in Eo. congruence. }
@@ -426,22 +426,22 @@ Proof.
 Qed.
 
 (** Every micro-step preserves the invariant; so does every run. *)
-Theorem WF_mstep c s m : WF s -> WF (fst (mstep c s m)).
+Theorem WF_mstep c s m : WF c s -> WF c (fst (mstep c s m)).
 Proof.
   intros H. destruct m; simpl.
   - apply WF_check_timeouts, H.
   - apply WF_process_rx, H.
-  - apply (WF_lim_update (c_p c)), H.
+  - apply (WF_lim_update c (c_p c)), H.
   - apply WF_process_tx, H.
   - apply WF_send, H.
   - apply WF_recv, H.
-  - apply (WF_stop_sending false), H.
+  - apply (WF_stop_sending c false), H.
   - apply WF_stop_receiving, H.
   - apply (WF_reset c), H.
   - apply WF_tick, H.
 Qed.
 
-Theorem WF_mrun c ms : forall s, WF s -> WF (fst (mrun c s ms)).
+Theorem WF_mrun c ms : forall s, WF c s -> WF c (fst (mrun c s ms)).
 Proof.
   induction ms as [|m rest IH]; intros s H; simpl; [exact H|].
   pose proof (WF_mstep c s m H) as H1. destruct (mstep c s m) as [s1 e1]. simpl in H1.
